@@ -13,13 +13,13 @@ theorem sysWrap_some (n : Nat) (d : Bytes) (e : RErr) : sysWrap n d (some e) = (
 theorem telWrap_eq (n : Nat) (d : Bytes) (e : Option RErr) : telWrap n d e = (d, e) := by
   simp [telWrap, take_filled]
 
-theorem takeLen_pos (n k a : Nat) : 1 ≤ takeLen n k a := by
+theorem takeLen_pos (n k : Nat) : 1 ≤ takeLen n k := by
   unfold takeLen; omega
 
-theorem takeLen_le (n k a : Nat) (hn : 1 ≤ n) (ha : 1 ≤ a) : takeLen n k a ≤ min n a := by
+theorem takeLen_le (n k : Nat) (hn : 1 ≤ n) : takeLen n k ≤ n := by
   unfold takeLen; omega
 
-theorem takeLen_exact (n k a : Nat) (hk : 1 ≤ k) (hkn : k ≤ n) (hka : k ≤ a) : takeLen n k a = k := by
+theorem takeLen_exact (n k : Nat) (hk : 1 ≤ k) (hkn : k ≤ n) : takeLen n k = k := by
   unfold takeLen; omega
 
 /-- everything a raw read can do, as one case split -/
@@ -29,8 +29,8 @@ theorem rawRead_cases (n k : Nat) (s : Stream) :
     (s.closed = false ∧ n ≠ 0 ∧ s.pending = [] ∧ s.peerGone = true ∧ rawRead n k s = (.ret [] (some .eof), s)) ∨
     (s.closed = false ∧ n ≠ 0 ∧ s.pending = [] ∧ s.peerGone = false ∧ rawRead n k s = (.block, s)) ∨
     (s.closed = false ∧ n ≠ 0 ∧ s.pending ≠ [] ∧
-      rawRead n k s = (.ret (s.pending.take (takeLen n k s.pending.length)) none,
-        { s with pending := s.pending.drop (takeLen n k s.pending.length) })) := by
+      rawRead n k s = (.ret (s.pending.take (takeLen n k)) none,
+        { s with pending := s.pending.drop (takeLen n k) })) := by
   rcases s with ⟨p, g, c⟩
   cases c
   · by_cases hn : n = 0
@@ -59,8 +59,8 @@ theorem implRead_cases (kd : Kind) (n k : Nat) (t : TState) (hwf : wf kd t) :
        (t.s.closed = false ∧ n ≠ 0 ∧ t.s.pending = [] ∧ t.s.peerGone = false ∧
           implRead kd n k t = (.block, t)) ∨
        (t.s.closed = false ∧ n ≠ 0 ∧ t.s.pending ≠ [] ∧
-          implRead kd n k t = (.ret (t.s.pending.take (takeLen n k t.s.pending.length)) none,
-            { t with s := { t.s with pending := t.s.pending.drop (takeLen n k t.s.pending.length) } })))) := by
+          implRead kd n k t = (.ret (t.s.pending.take (takeLen n k)) none,
+            { t with s := { t.s with pending := t.s.pending.drop (takeLen n k) } })))) := by
   rcases t with ⟨ib, s, out⟩
   have hsys : ib = [] → sysRead n k ⟨ib, s, out⟩ = telnetRead n k ⟨ib, s, out⟩ ∧
       ((s.closed = true ∧ telnetRead n k ⟨ib, s, out⟩ = (.ret [] (some .closed), ⟨ib, s, out⟩)) ∨
@@ -70,8 +70,8 @@ theorem implRead_cases (kd : Kind) (n k : Nat) (t : TState) (hwf : wf kd t) :
        (s.closed = false ∧ n ≠ 0 ∧ s.pending = [] ∧ s.peerGone = false ∧
           telnetRead n k ⟨ib, s, out⟩ = (.block, ⟨ib, s, out⟩)) ∨
        (s.closed = false ∧ n ≠ 0 ∧ s.pending ≠ [] ∧
-          telnetRead n k ⟨ib, s, out⟩ = (.ret (s.pending.take (takeLen n k s.pending.length)) none,
-            ⟨ib, { s with pending := s.pending.drop (takeLen n k s.pending.length) }, out⟩))) := by
+          telnetRead n k ⟨ib, s, out⟩ = (.ret (s.pending.take (takeLen n k)) none,
+            ⟨ib, { s with pending := s.pending.drop (takeLen n k) }, out⟩))) := by
     intro hib
     subst hib
     rcases rawRead_cases n k s with h | h | h | h | h
